@@ -3,6 +3,8 @@
 package storage
 
 import (
+	"errors"
+	"strings"
 	"sync"
 
 	"github.com/marekgalovic/anndb/index"
@@ -64,7 +66,13 @@ func verifItemIndex(id uuid.UUID) int {
 
 // verifMeta enumerates metadata shapes: nil, empty, one key, two keys.
 func verifMeta(tag string) map[string]string {
-	switch verifrt.Choose("meta", verifrt.Bound("metashapes", 4)) {
+	n := verifrt.Bound("metashapes", 4)
+	c := verifrt.Choose("meta", n+verifrt.Bound("longmeta", 0))
+	if c >= n {
+		// a key the snapshot format cannot represent (length stored in one byte)
+		return map[string]string{strings.Repeat("K", 256): "v"}
+	}
+	switch c {
 	case 0:
 		return nil
 	case 1:
@@ -75,6 +83,22 @@ func verifMeta(tag string) map[string]string {
 		return map[string]string{}
 	}
 }
+
+// verifMetaTooLarge: metadata that cannot be saved and loaded again; a change
+// that would store it must be refused with an error and change nothing.
+func verifMetaTooLarge(md map[string]string) bool {
+	if len(md) > 65535 {
+		return true
+	}
+	for k, v := range md {
+		if len(k) > 255 || len(v) > 65535 {
+			return true
+		}
+	}
+	return false
+}
+
+var verifAnyErr = errors.New("any error")
 
 type verifModel struct {
 	present [6]bool
@@ -195,7 +219,9 @@ func verifStep(p *partition, m *verifModel, dim, nIds, grid int, step int, kinds
 		}
 		switch kind {
 		case 0:
-			if m.present[i] {
+			if verifMetaTooLarge(md) {
+				verifrt.Assert(err != nil, "unrepresentable-metadata-refused")
+			} else if m.present[i] {
 				verifrt.Assert(err == index.ItemAlreadyExistsError, "insert-existing-reports-already-exists")
 			} else {
 				verifrt.Assert(err == nil, "insert-new-ok")
@@ -205,7 +231,6 @@ func verifStep(p *partition, m *verifModel, dim, nIds, grid int, step int, kinds
 			if !m.present[i] {
 				verifrt.Assert(err == index.ItemNotFoundError, "update-absent-reports-not-found")
 			} else {
-				verifrt.Assert(err == nil, "update-existing-ok")
 				merged := copyMeta(md)
 				if merged == nil {
 					merged = map[string]string{}
@@ -215,7 +240,12 @@ func verifStep(p *partition, m *verifModel, dim, nIds, grid int, step int, kinds
 						merged[k] = v
 					}
 				}
-				m.vec[i], m.meta[i] = vec, merged
+				if verifMetaTooLarge(merged) {
+					verifrt.Assert(err != nil, "unrepresentable-metadata-refused")
+				} else {
+					verifrt.Assert(err == nil, "update-existing-ok")
+					m.vec[i], m.meta[i] = vec, merged
+				}
 			}
 		case 2:
 			if !m.present[i] {
@@ -268,7 +298,9 @@ func verifStep(p *partition, m *verifModel, dim, nIds, grid int, step int, kinds
 			i := ids[j]
 			switch kind {
 			case 3:
-				if m.present[i] {
+				if verifMetaTooLarge(mds[j]) {
+					want[i] = verifAnyErr
+				} else if m.present[i] {
 					want[i] = index.ItemAlreadyExistsError
 				} else {
 					m.present[i], m.vec[i], m.meta[i] = true, vecs[j], copyMeta(mds[j])
@@ -286,7 +318,11 @@ func verifStep(p *partition, m *verifModel, dim, nIds, grid int, step int, kinds
 							merged[k] = v
 						}
 					}
-					m.vec[i], m.meta[i] = vecs[j], merged
+					if verifMetaTooLarge(merged) {
+						want[i] = verifAnyErr
+					} else {
+						m.vec[i], m.meta[i] = vecs[j], merged
+					}
 				}
 			case 5:
 				if !m.present[i] {
@@ -298,6 +334,10 @@ func verifStep(p *partition, m *verifModel, dim, nIds, grid int, step int, kinds
 		}
 		verifrt.Assert(len(errs) == len(want), "batch-errors-for-exactly-the-failed-ids")
 		for i, w := range want {
+			if w == verifAnyErr {
+				verifrt.Assert(errs[verifItemId(i)] != nil, "unrepresentable-metadata-refused")
+				continue
+			}
 			verifrt.Assert(errs[verifItemId(i)] == w, "batch-error-kind")
 		}
 	}
